@@ -1,6 +1,9 @@
 //! C02 — extension towers implement arithmetic of F_p[X]/(X^k - beta).
+mod extra;
 mod orc;
 mod toy;
+#[path = "zoo_cfg.rs"]
+pub mod zoo_cfg;
 
 use ark_ff::fields::fp6_2over3 as f6q;
 use ark_ff::fields::{
@@ -331,17 +334,39 @@ fn base_on<F: Ext>(c: &Ctx, bt: &Tower, ae: &Elem, be: &Elem, o: &mut Obs) -> R 
 }
 
 fn gen_exp(t: &mut Tape<'_>) -> (Vec<u64>, &'static str) {
-    match t.weighted(&[2, 3, 3, 3, 2, 2]) {
+    match t.weighted(&[2, 3, 3, 3, 2, 2, 2, 3]) {
         0 => (vec![t.below(17)], "exp-small"),
         1 => (vec![u64::MAX; 1 + t.idx(2)], "exp-all-ones-limbs"),
         2 => (vec![t.edge_u64()], "exp-edge-limb"),
         3 => (vec![t.u64() | (if t.bool() { 3 } else { 1 }) << 62], "exp-top-heavy"),
         4 => (vec![t.edge_u64(), t.edge_u64()], "exp-two-limbs"),
-        _ => match t.below(3) {
+        6 => {
+            // 3..=8 limbs (final-exponentiation sized), edge or uniform limbs
+            let n = 3 + t.idx(6);
+            let edge = t.bool();
+            ((0..n).map(|_| if edge { t.edge_u64() } else { t.u64() }).collect(), "exp-long")
+        },
+        7 => {
+            // a run of ones that crosses one or two limb boundaries (the NAF carry has to ripple out of a limb),
+            // optionally followed by trailing zero limbs
+            let s = 1 + t.below(63);
+            let r = 1 + t.below(63);
+            let mut v = vec![(t.u64() & ((1u64 << s) - 1)) | (u64::MAX << s)];
+            if t.bool() {
+                v.push(u64::MAX);
+            }
+            v.push((1u64 << r) - 1);
+            for _ in 0..t.below(3) {
+                v.push(0);
+            }
+            (v, "exp-ones-across-limbs")
+        },
+        5 => match t.below(3) {
             0 => (vec![], "exp-empty"),
             1 => (vec![t.edge_u64(), 0], "exp-leading-zero-limb"),
             _ => (vec![0, t.below(1 << 20)], "exp-low-limb-zero"),
         },
+        _ => unreachable!(),
     }
 }
 
@@ -609,7 +634,8 @@ fn budget(c: &Ctx, tier: Tier, base: u32) -> u32 {
 
 fn common<F>(out: &mut Vec<Rel>, c: &Arc<Ctx>, tier: Tier)
 where
-    F: Ext + CyclotomicMultSubgroup,
+    F: Ext + CyclotomicMultSubgroup + extra::RefOps,
+    F: From<u128> + From<i128> + From<u64> + From<i64> + From<u32> + From<i32> + From<u16> + From<i16> + From<u8> + From<i8> + From<bool>,
     F::BasePrimeField: OracleRepr,
 {
     let n = c.prime.n;
@@ -630,7 +656,35 @@ where
     let cc = c.clone();
     out.push(Rel::new(format!("cyclotomic/{}", c.name), budget(c, tier, 900), words, move |t, o| cyclo::<F>(&cc, false, t, o)).shrink_iters(400));
     let cc = c.clone();
-    out.push(Rel::new(format!("cyclotomic-exp/{}", c.name), budget(c, tier, 260), words, move |t, o| cyclo::<F>(&cc, true, t, o)).shrink_iters(200));
+    out.push(Rel::new(format!("cyclotomic-exp/{}", c.name), budget(c, tier, 260), words + 16, move |t, o| cyclo::<F>(&cc, true, t, o)).shrink_iters(200));
+    // deepening round: operand-kind spellings, iterator folds, Field defaults, integer conversions
+    let cc = c.clone();
+    out.push(Rel::new(format!("ops/{}", c.name), budget(c, tier, 600), 3 * d * (n + 6) + 48, move |t, o| extra::ops::<F>(&cc, t, o)));
+    let cc = c.clone();
+    let quad_top = c.top == 2;
+    out.push(Rel::new(format!("from-int/{}", c.name), budget(c, tier, 1500).min(tier.pick(400, 8000)), 8, move |t, o| extra::from_int::<F>(&cc, quad_top, t, o)));
+    // `From<bool>` of the cubic template calls itself (never returns): conversions from bool are not among the operations
+    // C02 lists, so nothing is registered for it (DESIGN.md 8.2, observation O9)
+}
+
+fn hooks_q<P: QuadExtConfig>(out: &mut Vec<Rel>, c: &Arc<Ctx>, tier: Tier)
+where
+    P::BaseField: OracleRepr,
+{
+    let bt = Arc::new(<P::BaseField as OracleRepr>::tower());
+    let cc = c.clone();
+    let w = 2 * c.d * (c.prime.n + 6) + 16;
+    out.push(Rel::new(format!("hooks/{}", c.name), budget(c, tier, 2400), w, move |t, o| extra::hooks_quad::<P>(&cc, &bt, t, o)));
+}
+
+fn hooks_c<P: CubicExtConfig>(out: &mut Vec<Rel>, c: &Arc<Ctx>, tier: Tier)
+where
+    P::BaseField: OracleRepr,
+{
+    let bt = Arc::new(<P::BaseField as OracleRepr>::tower());
+    let cc = c.clone();
+    let w = 2 * c.d * (c.prime.n + 6) + 16;
+    out.push(Rel::new(format!("hooks/{}", c.name), budget(c, tier, 2400), w, move |t, o| extra::hooks_cubic::<P>(&cc, &bt, t, o)));
 }
 
 fn fp2_rels<P: Fp2Config>(out: &mut Vec<Rel>, name: &str, tier: Tier)
@@ -642,6 +696,7 @@ where
     let w = 2 * c.d * (c.prime.n + 6) + 32;
     let cc = c.clone();
     out.push(Rel::new(format!("sparse/{}", name), budget(&c, tier, 6000), w, move |t, o| sparse_fp2::<P>(&cc, t, o)));
+    hooks_q::<ark_ff::fields::Fp2ConfigWrapper<P>>(out, &c, tier);
 }
 
 fn fp3_rels<P: Fp3Config>(out: &mut Vec<Rel>, name: &str, tier: Tier)
@@ -653,6 +708,7 @@ where
     let w = 2 * c.d * (c.prime.n + 6) + 32;
     let cc = c.clone();
     out.push(Rel::new(format!("sparse/{}", name), budget(&c, tier, 6000), w, move |t, o| sparse_fp3::<P>(&cc, t, o)));
+    hooks_c::<ark_ff::fields::Fp3ConfigWrapper<P>>(out, &c, tier);
 }
 
 fn fp4_rels<P: Fp4Config>(out: &mut Vec<Rel>, name: &str, tier: Tier)
@@ -665,6 +721,7 @@ where
     let t2 = Arc::new(<Fp2<P::Fp2Config> as OracleRepr>::tower());
     let cc = c.clone();
     out.push(Rel::new(format!("sparse/{}", name), budget(&c, tier, 6000), w, move |t, o| sparse_fp4::<P>(&cc, &t2, t, o)));
+    hooks_q::<ark_ff::fields::Fp4ConfigWrapper<P>>(out, &c, tier);
 }
 
 fn fp6q_rels<P: f6q::Fp6Config>(out: &mut Vec<Rel>, name: &str, tier: Tier)
@@ -676,6 +733,7 @@ where
     let w = 2 * c.d * (c.prime.n + 6) + 32;
     let cc = c.clone();
     out.push(Rel::new(format!("sparse/{}", name), budget(&c, tier, 6000), w, move |t, o| sparse_fp6q::<P>(&cc, t, o)));
+    hooks_q::<f6q::Fp6ConfigWrapper<P>>(out, &c, tier);
 }
 
 fn fp6c_rels<P: Fp6Config>(out: &mut Vec<Rel>, name: &str, tier: Tier)
@@ -688,6 +746,23 @@ where
     let t2 = Arc::new(<Fp2<P::Fp2Config> as OracleRepr>::tower());
     let cc = c.clone();
     out.push(Rel::new(format!("sparse/{}", name), budget(&c, tier, 6000), w, move |t, o| sparse_fp6c::<P>(&cc, &t2, t, o)));
+    hooks_c::<ark_ff::fields::Fp6ConfigWrapper<P>>(out, &c, tier);
+    // `Fp6Config::mul_fp2_by_nonresidue` (by value) is not routed through the wrapper; Fp12's cyclotomic squaring uses it
+    let t2 = Arc::new(<Fp2<P::Fp2Config> as OracleRepr>::tower());
+    let cc = c.clone();
+    out.push(Rel::new(format!("hooks-fp6/{}", name), budget(&c, tier, 3000), w, move |t, o| {
+        let b = gen_block(t, &cc, 2);
+        let ye = t2.unflatten(&b);
+        o.show(|| format!("{}: mul_fp2_by_nonresidue({})", cc.name, show(&ye)));
+        o.nt(!t2.is_zero(&ye));
+        o.evals(2);
+        let want = t2.mul(&P::NONRESIDUE.to_o(), &ye);
+        let y = blk::<Fp2<P::Fp2Config>>(&t2, &b);
+        chk(&P::mul_fp2_by_nonresidue(y), &want, "mul_fp2_by_nonresidue")?;
+        let mut v = y;
+        P::mul_fp2_by_nonresidue_in_place(&mut v);
+        chk(&v, &want, "mul_fp2_by_nonresidue_in_place")
+    }));
 }
 
 fn fp12_rels<P: Fp12Config>(out: &mut Vec<Rel>, name: &str, tier: Tier)
@@ -700,6 +775,7 @@ where
     let t2 = Arc::new(<Fp12Fp2<P> as OracleRepr>::tower());
     let cc = c.clone();
     out.push(Rel::new(format!("sparse/{}", name), budget(&c, tier, 6000), w, move |t, o| sparse_fp12::<P>(&cc, &t2, t, o)));
+    hooks_q::<ark_ff::fields::Fp12ConfigWrapper<P>>(out, &c, tier);
 }
 
 fn relations(tier: Tier) -> Vec<Rel> {
@@ -733,13 +809,27 @@ fn relations(tier: Tier) -> Vec<Rel> {
     fp2_rels::<ark_bn254::Fq2Config>(&mut out, "bn254.Fq2", tier);
     fp2_rels::<ark_test_curves::bls12_381::Fq2Config>(&mut out, "test.bls12_381.Fq2", tier);
     toy::relations(&mut out, tier);
+    // towers over zoo prime fields with unusual modulus shapes / hand-written configurations
+    macro_rules! z2 {
+        ($cfg:ty, $name:expr) => {
+            fp2_rels::<$cfg>(&mut out, $name, tier);
+        };
+    }
+    for_each_zoo_fp2!(z2);
+    macro_rules! z3 {
+        ($cfg:ty, $name:expr) => {
+            fp3_rels::<$cfg>(&mut out, $name, tier);
+        };
+    }
+    for_each_zoo_fp3!(z3);
+    out.push(Rel::new("char-mod-6/characteristic_square_mod_6_is_one", tier.pick(4000, 80000), 20, |t, o| extra::char_mod_6(t, o)));
     out
 }
 
 fn main() {
     vh_core::engine::main(PropSpec {
         id: "C02",
-        rule: "Elements are built per prime-field coordinate (raw Montgomery limbs) from the edge-biased prime-field strategy with structural classes: zero, one, prime-subfield, coordinate-aligned proper subfield, single non-zero coordinate, sparse, dense; second operands are independent or correlated (a, -a, 1/a, conjugate); sparse operands of mul_by_034/014/01/1/fp/fp2 are drawn per coefficient (zero, one, edge values) and embedded at the coordinates their name denotes; cyclotomic elements are produced by the oracle as x^((p^(d/2)-1)(p^(d/6)+1)) and their membership is re-checked with the oracle Frobenius; cyclotomic exponents include all-ones limbs, top-heavy limbs, leading zero limbs, empty. Over all 27 shipped tower types (Fp2 x6, Fp3 x6, Fp4 x2, Fp6-2over3 x5, Fp6-3over2 x4, Fp12 x4) and toy towers over p = 7, 13 (all ordered pairs / all elements). Every result is compared coordinate-wise (and for canonicity) with schoolbook arithmetic modulo the defining binomials built from BigUint arithmetic and the NONRESIDUE constants only; Frobenius by x -> x^p (linear extension of the schoolbook powers of the basis, cross-checked against the direct schoolbook power). A case is non-trivial when every tower operand is outside {0,1} (it then has at least two non-zero coordinates or belongs to one of the structural classes above); for cyclotomic relations when the subgroup element is not 1. distinct = distinct decoded choice sequences.",
+        rule: "Elements are built per prime-field coordinate (raw Montgomery limbs) from the edge-biased prime-field strategy with structural classes: zero, one, prime-subfield, coordinate-aligned proper subfield, single non-zero coordinate, sparse, dense; second operands are independent or correlated (a, -a, 1/a, conjugate); sparse operands of mul_by_034/014/01/1/fp/fp2 are drawn per coefficient (zero, one, edge values) and embedded at the coordinates their name denotes; cyclotomic elements are produced by the oracle as x^((p^(d/2)-1)(p^(d/6)+1)) and their membership is re-checked with the oracle Frobenius; cyclotomic exponents include all-ones limbs, top-heavy limbs, leading zero limbs, empty, 3..8-limb exponents and runs of ones that cross one or two limb boundaries (followed by up to two zero limbs). Over all 27 shipped tower types (Fp2 x6, Fp3 x6, Fp4 x2, Fp6-2over3 x5, Fp6-3over2 x4, Fp12 x4), toy towers over p = 7, 13 (all ordered pairs / all elements) and 15 towers (Fp2 x10, Fp3 x5) over zoo prime fields with modulus shapes no shipped tower has (64/128/256-bit moduli without spare bit, top limb exactly 2^63, full width, two-adicity 32 and 47, hand-written MontConfig with trait-default arithmetic). Deepening round, per tower: ops/ = every operand-kind spelling of + - * / and the compound assignments not used by arith/ (&a op b, &a op &b, a op &mut b, &a op &mut b, x op= &mut b, x /= b), Sum/Product over owned and borrowed iterators (also empty), sum_of_products of length 0, 1, 3, 4, pow and pow_with_table (tables of 0..69 oracle-built powers: Some iff the exponent fits) with 0..2-limb edge exponents; from-int/ = From<u8..u128>, From<i8..i128> of edge bit patterns, MAX and MIN (negative values must give -|v|), From<bool> for quadratic tops (the cubic template's From<bool> never returns - observation O9 in DESIGN.md, outside the listed operations, not checked); hooks/ = the overridable configuration hooks mul_base_field_by_nonresidue_in_place/_and_add/_plus_one_and_add, sub_and_mul_base_field_by_nonresidue, mul_base_field_by_nonresidue, mul_fp2_by_nonresidue and mul_base_field_by_frob_coeff called directly (base-field operands from the edge strategy; Frobenius powers 0..2d+1, huge multiples of d plus a remainder, near usize::MAX) against beta*y, x+beta*y, x+beta*y+y, x-beta*y and the coefficient of w^(p^k) read off the oracle Frobenius; char-mod-6/ = characteristic_square_mod_6_is_one on 0..13 limbs against BigUint. Every result is compared coordinate-wise (and for canonicity) with schoolbook arithmetic modulo the defining binomials built from BigUint arithmetic and the NONRESIDUE constants only; Frobenius by x -> x^p (linear extension of the schoolbook powers of the basis, cross-checked against the direct schoolbook power). A case is non-trivial when every tower operand is outside {0,1} (it then has at least two non-zero coordinates or belongs to one of the structural classes above); for cyclotomic relations when the subgroup element is not 1. distinct = distinct decoded choice sequences.",
         assumptions: &[
             "num-bigint arithmetic is correct (oracle)",
             "NONRESIDUE constants of the shipped configurations define the intended fields (the oracle reads them; irreducibility is implied by the oracle check x^(p^d) = x and the inverse checks)",
